@@ -232,7 +232,11 @@ def coq_build(targets: list[str] | None = None, timeout=3000):
     os.makedirs(os.path.join(VERIF, "gen"), exist_ok=True)
     with open(os.path.join(COQ, ".buildlock"), "w") as lk:
         fcntl.flock(lk, fcntl.LOCK_EX)
-        regenerate_anchors()
+        try:
+            regenerate_anchors()
+        except Exception as e:   # fail-closed extractor: the source no longer has the anchored shape
+            raise BuildError("anchors: the source no longer has the shape the model is anchored to: %r" % (e,),
+                             "anchor extraction failed: %r" % (e,))
         if targets:
             rc, out = _sh("make Makefile.coq >/dev/null && timeout %d make -f Makefile.coq -k -j%d %s" % (
                 timeout, NWORK, " ".join(targets)), timeout + 60, cwd=COQ)
@@ -560,7 +564,11 @@ def _main(prop, tier, seed, replay, tmpdir, t0):
         if proof_state["error"]:
             budget *= 3   # search harder for a concrete failing input
         for i in range(budget):
-            cases.append(prop.gen(case_rng(seed, prop_id, i), i, tier))
+            c = prop.gen(case_rng(seed, prop_id, i), i, tier)
+            if getattr(prop, "NAMING", False) and isinstance(c, dict) and "naming" not in c and i % 3 == 1 \
+                    and len(c.get("costs", [])) <= 14:
+                c["naming"] = 1     # project names with prefix relations and punctuation (pb.set_naming)
+            cases.append(c)
     stage_c_error = None
     obs, fails = [], []
     model_broken = proof_state["error"] is not None and "case file" not in (proof_state["error"] or "")
